@@ -42,7 +42,7 @@ def _case(draw, tier):
                 n["cache"] = True
         return {"part": "B", "nodes": nodes, "runner": draw(st.sampled_from(["sync", "async"])), "select": draw(st.lists(st.integers(0, 9), max_size=2)),
                 "max_iter": draw(st.sampled_from([4, 10]))}
-    topo = draw(gen.g1_nodes(3, 8, default_on_edge=0.1))
+    topo = draw(gen.g1_nodes(3, 8, default_on_edge=0.1, p_const=0.15))  # incl. outputs whose produced value is None / falsy
     # ordering signals
     if prob(draw, 0.4) and len(topo) >= 2:
         i = draw(st.integers(0, len(topo) - 2))
@@ -61,6 +61,15 @@ def _case(draw, tier):
     names = [n["name"] for n in topo]
     entry = draw(st.lists(st.sampled_from(names), min_size=1, max_size=2, unique=True)) if prob(draw, 0.7) else None
     chain = entry is not None and len(entry) == 2 and draw(st.booleans())
+    if entry and prob(draw, 0.3):
+        # an early-start gate UPSTREAM of an entry node (so outside the scope) whose inputs are available and which would decide END:
+        # it is not part of the run, so it neither executes nor blocks its target
+        tnode = next(n for n in topo if n["name"] == entry[0])
+        prod0 = ref.producers(topo)
+        own_pure = [p for p in tnode["params"] if p not in prod0 and not any(p in n.get("defaults", {}) for n in topo)]
+        gp = draw(st.sampled_from(own_pure)) if own_pure and draw(st.booleans()) else "gx"
+        topo.insert(0, {"k": "ifelse", "name": "gup", "params": [gp], "defaults": {}, "outs": [], "t": entry[0], "f": "END", "table": [False],
+                        "default_open": True})  # a closed-by-default gate that never decides keeps its target shut (C03), scope or not
     outs = [o for n in topo for o in n["outs"]]
     emits = [o for n in topo for o in n.get("emit", [])]
     prod = ref.producers(topo)
